@@ -307,6 +307,8 @@ pub fn configs(prop: &str, thorough: bool) -> Vec<(Cfg, Option<usize>)> {
                 c.senders = vec![4, 0];
                 c.recipients = vec![0, 4];
                 c.minters = if thorough { vec![0, 1, 2, 3] } else { vec![0, 1, 3] };
+                // X is the chain-level migration admin of the token: no authority over the minter role
+                c.wasm_admin = Some(3);
                 c.mint_to = vec![4, 0];
                 c.amounts = vec![1, 2];
                 c.mint_amounts = if n == "capmax" { vec![0, 1, 2, MAX] } else { vec![0, 1, 2, 3, MAX] };
@@ -370,6 +372,23 @@ pub fn configs(prop: &str, thorough: bool) -> Vec<(Cfg, Option<usize>)> {
                     c.exps = vec![ExpA::Unset, ExpA::H(H0 + 1)];
                     c.hmax = H0 + 1;
                 }
+                out.push((c, None));
+            }
+            {
+                // mutual grants (A->B and B->A) through every migration
+                let mut c = Cfg::base("C19/closed/mutual-grants");
+                c.actors = vec!["A", "B", "S1"];
+                c.props = p.clone();
+                c.initial = vec![(0, 1), (1, 1)];
+                c.recipients = vec![2];
+                c.owners = vec![0, 1];
+                c.spenders = vec![0, 1];
+                c.amounts = vec![1, 2];
+                c.exps = vec![ExpA::Unset];
+                c.grant_cap = Some(2);
+                c.hmax = H0;
+                c.kinds = kinds(&["Inc", "Dec", "TransferFrom"]);
+                c.migrate_probe = true;
                 out.push((c, None));
             }
             {
